@@ -59,6 +59,10 @@ pub enum Call {
     /// Replace a registered trusted path on disk by a symbolic link to another file
     /// (the path "moves to a different device", which the module anticipates).
     RepointTrusted { which: u8, to: FileRef },
+    /// Set a fresh file's modification time a day into the future (`File::set_modified`): the
+    /// change-time becomes "now", the modification time is whatever the caller says.  Only
+    /// change-times are evidence.
+    SetMtimeFuture(FileRef),
     /// `add_trusted_path` on a path that cannot be opened or created (a missing directory under A,
     /// or /proc): it must fail, trust nothing and leave the base time alone.
     AddTrustedBad(u8),
@@ -270,6 +274,18 @@ fn execute(case: &Case) -> Verdict {
                         }
                     }
                 }
+                Call::SetMtimeFuture(f) => {
+                    must_not_move = true;
+                    if matches!(f, FileRef::FreshA(_) | FileRef::FreshB(_)) {
+                        if let Some(path) = env.path(f) {
+                            if env.open(f).is_some() {
+                                if let Ok(file) = std::fs::File::options().write(true).open(&path) {
+                                    let _ = file.set_modified(std::time::SystemTime::now() + std::time::Duration::from_secs(86_400));
+                                }
+                            }
+                        }
+                    }
+                }
                 Call::AddTrustedBad(k) => {
                     must_not_move = true;
                     let path = if k % 2 == 0 { env.dir_a.join("no-such-directory").join(format!("f{k}")) } else { PathBuf::from(format!("/proc/vp-c19-no-such-{k}")) };
@@ -448,6 +464,7 @@ fn call() -> impl Strategy<Value = Call> {
         2 => prop_oneof![Just(Now::Epoch), Just(Now::FarFuture), Just(Now::Real)].prop_map(Call::GetBaseTime),
         1 => Just(Call::GetUnlocked),
         2 => file_ref().prop_map(Call::Touch),
+        2 => file_ref().prop_map(Call::SetMtimeFuture),
         2 => (1u8..6).prop_map(Call::SleepMs),
         2 => (any::<u8>(), file_ref()).prop_map(|(which, to)| Call::RepointTrusted { which, to }),
         1 => (proptest::option::of(prop_oneof![Just(0u16), 1u16..3000, any::<u16>()]), proptest::option::of(prop_oneof![Just(Now::Epoch), Just(Now::FarFuture), Just(Now::Real)]))
@@ -490,7 +507,7 @@ fn replay(_ctx: &Ctx, _group: &str, case: &Value) -> CaseResult {
 pub fn def() -> PropDef {
     PropDef {
         id: "C19",
-        rule: "Each case runs in a fresh child process (the module state is process-global). A case is a sequence of 1..20 calls: add_trusted_path on the device holding /verif (A) or on /dev/shm (B) or on a path that can be neither opened nor created (must fail and change nothing), observe_file_time / maybe_observe_file_time on files created by the case on A or B, on files that existed long before (old change-times) on A, on /proc/self/stat and /dev/null, on the case's own directories (opened as files), scan_base_time, get_base_time with 'now' at the epoch / far in the future / real, get_base_time_unlocked, should_refresh_base_time with generated leeway and 'now' (pure policy: it must not move the base time), chmod of a fresh file (bumps its change-time), short sleeps (and, in eight directed refresh-paths histories, sleeps of 1.1 - 2.1 s that let the base time go stale so that the refresh branches of maybe_observe_file_time and scan_base_time run), and replacing a registered trusted path on disk by a symbolic link to another file (on the same, the other writable, or a read-only device). With b = get_base_time_unlocked before and after every call: b never decreases; if it changed, a device is trusted, the call had trusted evidence to look at, and the new value is the change-time (ms, read back with stat) of a file the call could legitimately have observed (its argument if its device is trusted, the path being registered, or a registered path for scan / refresh - in every case only if the file it now resolves to lives on a trusted device); observe_file_time on an untrusted device reports nothing and on a trusted one reports exactly that file's change-time; every (base, voucher) pair returned by any call passes VouchedTime::check. The oracle never predicts whether the refresh policy fires. Non-trivial: an observation on an untrusted device followed later by one on a trusted device, or an old trusted file observed after a fresh one. Distinct: hash of the serialised case.",
+        rule: "Each case runs in a fresh child process (the module state is process-global). A case is a sequence of 1..20 calls: add_trusted_path on the device holding /verif (A) or on /dev/shm (B) or on a path that can be neither opened nor created (must fail and change nothing), observe_file_time / maybe_observe_file_time on files created by the case on A or B, on files that existed long before (old change-times) on A, on /proc/self/stat and /dev/null, on the case's own directories (opened as files), scan_base_time, get_base_time with 'now' at the epoch / far in the future / real, get_base_time_unlocked, should_refresh_base_time with generated leeway and 'now' (pure policy: it must not move the base time), chmod of a fresh file (bumps its change-time), setting a fresh file's modification time a day ahead (only change-times are evidence), short sleeps (and, in eight directed refresh-paths histories, sleeps of 1.1 - 2.1 s that let the base time go stale so that the refresh branches of maybe_observe_file_time and scan_base_time run), and replacing a registered trusted path on disk by a symbolic link to another file (on the same, the other writable, or a read-only device). With b = get_base_time_unlocked before and after every call: b never decreases; if it changed, a device is trusted, the call had trusted evidence to look at, and the new value is the change-time (ms, read back with stat) of a file the call could legitimately have observed (its argument if its device is trusted, the path being registered, or a registered path for scan / refresh - in every case only if the file it now resolves to lives on a trusted device); observe_file_time on an untrusted device reports nothing and on a trusted one reports exactly that file's change-time; every (base, voucher) pair returned by any call passes VouchedTime::check. The oracle never predicts whether the refresh policy fires. Non-trivial: an observation on an untrusted device followed later by one on a trusted device, or an old trusted file observed after a fresh one. Distinct: hash of the serialised case.",
         assumptions: &[
             "only two writable devices exist in the sandbox (the ext4 device holding /verif and /dev/shm); real NFS semantics are out of reach",
             "a call that fails with an I/O error ends the case without a verdict for the remaining calls",
